@@ -5,6 +5,7 @@ import (
 	"errors"
 	"fmt"
 	"sync"
+	"sync/atomic"
 
 	"github.com/ava-labs/avalanchego/database"
 	"github.com/ava-labs/avalanchego/ids"
@@ -64,9 +65,16 @@ func (b *vBlock) Contains(id ids.ID) bool {
 type vIndex struct {
 	mu sync.Mutex
 	m  map[ids.ID]*vBlock
+	// slowFor, if set, makes a lookup a scheduling point for that goroutine (a disk read during which
+	// other threads run); other callers may hold the window's lock and are never parked here
+	slowFor atomic.Uint64
+	yield   func()
 }
 
 func (x *vIndex) GetExecutionBlock(_ context.Context, id ids.ID) (validitywindow.ExecutionBlock[*vItem], error) {
+	if g := x.slowFor.Load(); g != 0 && x.yield != nil && simk.GID() == g {
+		x.yield()
+	}
 	x.mu.Lock()
 	defer x.mu.Unlock()
 	b, ok := x.m[id]
@@ -126,6 +134,8 @@ func c09Window(r *simk.Run) *simk.Violation {
 			s.SetStarve("c09.accepter")
 		}
 		idx := &vIndex{m: map[ids.ID]*vBlock{}}
+		idx.yield = func() { s.Yield("c09.index.read", 0) }
+		var compWg sync.WaitGroup
 		genesis := &vBlock{id: ids.Empty.Prefix(1), ts: 1000, h: 0}
 		idx.set(genesis)
 		all := map[ids.ID]*vBlock{genesis.id: genesis} // the model tree: every block ever proposed
@@ -350,6 +360,22 @@ func c09Window(r *simk.Run) *simk.Violation {
 				}
 				note("isRepeat(parent=h%d now=%d txs=%v)", parent.h, ts, nums(its))
 				bqs <- bq{parent: parent, ts: ts, items: its}
+			case c.Bool(0.45): // normal operation starts (after bootstrap or state sync) while accepts are still queued:
+				// the window is completed from the last processed block, concurrently with the accepter
+				pmu.Lock()
+				head := accepted[processed]
+				pmu.Unlock()
+				note("complete(from h=%d)", head.h)
+				s.Probe("complete_while_accepts_queued")
+				w := curWin()
+				compWg.Add(1)
+				s.Go("c09.complete", head.h, func() {
+					defer compWg.Done()
+					idx.slowFor.Store(simk.GID())
+					defer idx.slowFor.Store(0)
+					w.Complete(ctx, head)
+				})
+				compWg.Wait() // one completion at a time; the accepter and the builder keep running meanwhile
 			default: // restart: the accepter's backlog is lost, the window is rebuilt from the accepted chain
 				pmu.Lock()
 				dead = true
